@@ -48,8 +48,12 @@ func c11one(t *testing.T, out *verifh.Out, r *rand.Rand, dir string) {
 	switch statusKind {
 	case 2:
 		ln.Repl.IO, ln.Repl.SQL = false, false
-	case 3:
-		ln.Repl.SQL, ln.Repl.SQLErrno = false, 1062
+	case 3: // replication in error: by the SQL thread, or by the IO thread alone (e.g. the new master purged what it needs)
+		if r.Intn(2) == 0 {
+			ln.Repl.SQL, ln.Repl.SQLErrno = false, 1062
+		} else {
+			ln.Repl.IO, ln.Repl.IOErrno = false, []int{1236, 2003}[r.Intn(2)]
+		}
 	case 4:
 		ln.Repl = nil
 	case 5:
